@@ -48,11 +48,9 @@ func runC07H2(c *Ctx, ruleB1, ruleH string) {
 		if offOK {
 			for fn := range scope {
 				ba := br.ba(fn)
-				for _, prm := range fn.Params {
-					if prm.Name() == "off" {
-						for a := range ba.lin(prm).T {
-							ba.nonneg[a] = true
-						}
+				if prm := offsetParam(fn); prm != nil {
+					for a := range ba.lin(prm).T {
+						ba.nonneg[a] = true
 					}
 				}
 			}
@@ -176,7 +174,7 @@ func h2OffsetsNonNeg(c *Ctx, fns []*ssa.Function) (bool, string) {
 			n, ok := constInt(x)
 			return ok && n >= 0
 		case *ssa.Parameter:
-			return x.Name() == "off" && isReader[x.Parent()]
+			return isReader[x.Parent()] && offsetParam(x.Parent()) == x
 		case *ssa.BinOp:
 			if x.Op.String() == "+" {
 				return nonneg(x.X, d+1) && nonneg(x.Y, d+1)
@@ -310,4 +308,16 @@ func runHpackBounds(c *Ctx, rule string, withB1 bool) {
 	if n < 2 {
 		c.Unresolved(rule, fmt.Sprintf("uint64 narrowing conversions in the HPACK decoder (found %d)", n))
 	}
+}
+
+// offsetParam: the read offset of a frame-reader function: its last parameter when that is an int.
+func offsetParam(fn *ssa.Function) *ssa.Parameter {
+	if len(fn.Params) == 0 {
+		return nil
+	}
+	p := fn.Params[len(fn.Params)-1]
+	if b, ok := p.Type().Underlying().(*types.Basic); ok && b.Kind() == types.Int {
+		return p
+	}
+	return nil
 }
